@@ -15,6 +15,11 @@ CHECKS = {
     technique="TLA+ module SymTyping.tla (transcribed typing rules over an operand-type universe; Sym evaluated by TLC on all ordered pairs); every case replayed in both operand orders through TypeChecker::checkExpression",
     text="TLC evaluates Rule(op,a,b)=Rule(op,b,a) for 11 commutative operators, inline-if and reference-parameter compatibility over 17 operand type classes and exports all cases; the real checker's acceptance and result kind are compared between the two operand orders (the property) and with the transcription (drift note).",
     note="Function-shaped module: TLC's role is exhaustive evaluation over the finite universe, not state exploration (states = exported cases). Trusts the scaffold declarations in checks/c14.py; const-int parameters have no default range (documented drift)."),
+ "C11": dict(
+    category="model_checking", design_ref="DESIGN.md section 5 (C11), 2.6",
+    technique="TLA+ state machine Effects.tla (function families declared in order; least-fixpoint may-write semantics vs transcribed changes-summary) checked by TLC; every family rendered and called from 16 side-effect-free contexts in the real type checker",
+    text="TLC checks MayWrite=>Rejects after every declaration step for all families (write target x lvalue shape x write form x statement form x wrapper chain x argument mode) and exports them; libutap must reject every context whose semantics says it can write and accept the write-free twin.",
+    note="Trusts TLC, the may-write semantics in Effects.tla, the python renderer; wrapper chains to depth 2; twin = write removed and reference parameters by value (libutap is deliberately conservative for reference arguments)."),
 }
 NOT_APPLICABLE = {}
 PENDING_REASON = "check not built yet (work in progress; see DESIGN.md section 5 for the plan)"
